@@ -9,6 +9,8 @@ CONSTANTS
     CHi = 8
     Ks = {3}
     Ordered = TRUE
+    Adjacent = FALSE
+    FixCutoff = FALSE
     Replay = FALSE
     RMod = 1
 SPECIFICATION Spec
